@@ -1041,12 +1041,15 @@ def hub_stream(ctx, RN, rng, quick):
             G[1:, 1:] = np.linalg.inv(L[1:, 1:])
             pairs = [(0, 1), (1, 2), (n - 1, n - 2), (0, n - 1)] + \
                 [tuple(rng.sample(range(n), 2)) for _ in range(6)]
-            er = [quiet(net.effective_resistance, a, b) for a, b in pairs]
-            ere = [G[a, a] + G[b, b] - G[a, b] - G[b, a] for a, b in pairs]
-            Rm = quiet(net.get_R)
-            Ad = quiet(net.get_admittance)
+            er = [float(quiet(net.effective_resistance, a, b)) for a, b in pairs]
+            ere = [float(G[a, a] + G[b, b] - G[a, b] - G[b, a]) for a, b in pairs]
+            Rimpl = quiet(net.get_R)
+            Ad = Y
+            # the pseudo-inverse from the independent solve: centred grounded inverse
+            C = np.eye(n) - 1.0 / n
+            Rm = C @ G @ C
             nodes = [0, 1, n - 1]
-            vc = [quiet(net.vertex_current_flow_betweenness, i) for i in nodes]
+            vc = [float(quiet(net.vertex_current_flow_betweenness, i)) for i in nodes]
             vce = []
             for i in nodes:
                 tot = 0.0
@@ -1057,7 +1060,7 @@ def hub_stream(ctx, RN, rng, quick):
                     # |R[i,s]-R[j,s] + R[j,t]-R[i,t]| for all s (rows) and j (columns)
                     M = np.abs(Rm[i, ss][:, None] - Rm[:, ss].T + Rm[:, t][None, :] - Rm[i, t])
                     tot += 0.5 * (M @ Ad[i]).sum()
-                vce.append(2.0 * tot / (n * (n - 1)))
+                vce.append(float(2.0 * tot / (n * (n - 1))))
             kb = f32_bound(Ad.tolist(), Rm.tolist())
         except Exception as ex:  # noqa
             ctx.fail({"kind": "hub", "law": "exception"},
@@ -1076,10 +1079,15 @@ def hub_stream(ctx, RN, rng, quick):
             ctx.fail({"kind": "hub", "law": "effective_resistance=solve"},
                      f"effective resistances {er} on a hub network, direct solve {ere}",
                      dict(rep, pairs=pairs))
+        if np.abs(Rimpl - Rm).max() > max(tol, 1e-7) * np.abs(Rm).max():
+            ctx.fail({"kind": "hub", "law": "get_R=pseudo-inverse"},
+                     f"get_R() differs from the pseudo-inverse of the admittance Laplacian by "
+                     f"{np.abs(Rimpl - Rm).max()} (largest entry of the pseudo-inverse: "
+                     f"{np.abs(Rm).max()}, of get_R(): {np.abs(Rimpl).max()})", rep)
         if any(abs(x - e) > kb for x, e in zip(vc, vce)):
             ctx.fail({"kind": "hub", "law": "vcfb=sum"},
-                     f"vertex_current_flow_betweenness of nodes {nodes} = {vc}, defining sums "
-                     f"{vce}", rep)
+                     f"vertex_current_flow_betweenness of nodes {nodes} = {vc}, defining sums on "
+                     f"the independently solved pseudo-inverse {vce}", rep)
 
 
 def wrapper_stream(ctx, RN, rng):
@@ -1525,7 +1533,23 @@ def complex_stream(ctx, RN, rng, count):
     ctx.extra["complex_networks_compared"] = len(todo)
 
 
-def complex_model_diff(net, n, m, low):
+def clust_scale(Y, deg):
+    """per node: the magnitude against which an error of the admittive clustering is judged —
+    sum of the *absolute* triple products over |ad (d-1)|, times the cancellation factor of the
+    admittive degree (sum |Y_ij| / |sum Y_ij|); equals |lc_i| when nothing cancels"""
+    Y = np.asarray(Y, dtype=complex)
+    n = len(Y)
+    aY = np.abs(Y)
+    tri = np.einsum("ij,ik,jk->i", aY, aY, aY)
+    ad = Y.sum(axis=0)
+    out = np.zeros(n)
+    for i in range(n):
+        if deg[i] != 1 and abs(ad[i]) > 0:
+            out[i] = tri[i] / (abs(ad[i]) * (deg[i] - 1)) * (aY[:, i].sum() / abs(ad[i]))
+    return out
+
+
+def complex_model_diff(net, n, m, low, deg):
     """names of the observables of a complex network that differ from the exact model values"""
     bad = []
 
@@ -1548,8 +1572,9 @@ def complex_model_diff(net, n, m, low):
     cmp("ercc", [quiet(net.effective_resistance_closeness_centrality, a) for a in range(n)],
         1e-6, np.abs(m["ercc"]).max())
     cmp("ad", quiet(net.admittive_degree), 1e-9, ys)
-    cmp("lc", quiet(net.local_admittive_clustering), 1e-9, max(np.abs(m["lc"]).max(), ys * ys / n))
-    cmp("gc", quiet(net.global_admittive_clustering), 1e-9, max(abs(m["gc"]), ys * ys / n))
+    cs = max(clust_scale(m["adm"], deg).max(), ys * ys / n)
+    cmp("lc", quiet(net.local_admittive_clustering), 1e-9, cs)
+    cmp("gc", quiet(net.global_admittive_clustering), 1e-9, cs)
     return bad
 
 
@@ -1584,7 +1609,7 @@ def complex_check(ctx, RN, rng, A, Z, kind, make=None, model=None, cbad=None):
             if m is None:
                 cbad.append(("model refuses", enc_adj(A), Z.tolist(), model[:60]))
             else:
-                d = complex_model_diff(net, n, m, low)
+                d = complex_model_diff(net, n, m, low, np.array(A).sum(axis=1))
                 if d:
                     cbad.append((d, enc_adj(A), Z0.tolist(), str(Z0.dtype)))
         Y = np.where(np.array(A) != 0, 1.0 / np.where(Z == 0, 1, Z), 0)
@@ -1615,10 +1640,12 @@ def complex_check(ctx, RN, rng, A, Z, kind, make=None, model=None, cbad=None):
         if np.abs(ad - Y.sum(axis=0)).max() > 1e-9 * lf * ys:
             fail("admittive_degree=sum", "complex admittive degree differs from its defining sum")
         deg = np.array(A).sum(axis=1)
+        cscale = clust_scale(Y, deg)
         for i in range(n):
             tri = sum(Y[i, j] * Y[i, k] * Y[j, k] for j in range(n) for k in range(n))
             e = 0 if deg[i] == 1 else tri / (Y[i].sum() * (deg[i] - 1))
-            if abs(lc[i] - e) > 1e-9 * lf * max(abs(e), ys * ys / n):
+            # judged against the sum of absolute terms (complex products cancel), see clust_scale
+            if abs(lc[i] - e) > 1e-9 * lf * max(abs(e), ys * ys / n, cscale[i]):
                 fail("local_admittive_clustering=sum",
                      f"complex local_admittive_clustering()[{i}] = {lc[i]}, defining sum {e}")
         # scaling by a complex factor through update_resistances, after the store was filled
